@@ -283,7 +283,13 @@ func TestC14(t *testing.T) {
 
 				all := true
 
-				for range 1 + r.intn(3) {
+				// an alternative without terms matches everything (and so does the whole selector)
+				nTerms := 1 + r.intn(3)
+				if r.chance(1, 6) {
+					nTerms = 0
+				}
+
+				for range nTerms {
 					tc := genTerm()
 					q = append(q, tc)
 					terms = append(terms, tc.term())
@@ -317,7 +323,7 @@ func TestC14(t *testing.T) {
 				rep.violateKey(i, "server-panic:ConvertLabelQuery", "gRPC server handler panicked on a label query: "+p, replay)
 			}
 
-			rep.count(fmt.Sprint("multi", i), len(queries) > 1 || len(queries[0]) > 1)
+			rep.count(fmt.Sprint("multi", i), len(queries) > 1 || len(queries[0]) != 1)
 			rep.hit("multi_term")
 
 			if got := lq.Matches(*res.Metadata().Labels()); got != want {
